@@ -79,9 +79,9 @@ claim("C01", "Coq proof of panic-freedom / totality of the model (every index, r
 claim("C06", "Coq proof (for any builder state at creation time and any later state that keeps protected/payload/signature: encode, decode, verify hands the closure exactly the stored signature/tag/ciphertext and the bytes the creator was given; injectivity gives sensitivity) + builder-history correspondence with independent Python structures",
       "Theorems for all seven creating builders (Sign1 embedded/detached, Sign with signer index, Mac0, Mac, Encrypt0, Encrypt, recipient): if the creator was given tbs in state st and the message later keeps its protected header, payload and signature, then after to_value/from_value (and to_vec/from_slice, tagged or not, for wire-normal values) the verify/decrypt helper returns exactly f(stored signature, tbs); a failing fallible creator yields its error and no message; any change to context, protected headers, AAD or payload changes the bytes. In a second group of theorems (suffix _total) encoding and decoding success are conclusions: for every well-formed built message (T_bwf) the whole chain create, serialise, parse, verify/decrypt succeeds and returns f(stored, tbs); for Sign1 also the tbs computation and the builder step (sign1_builder_sign_then_verify_total). Implementation: generated builder histories with create calls, then encode (tagged/untagged), decode, verify with equal and perturbed AAD, compared with the model and with Python-computed structures.",
       COMMON_NOTE, "DESIGN.md 7 (C06)")
-claim("C07", "Coq proof with one known class (byte layer: parser output is in normal form and re-serialise/re-parse is the identity outside tag-2/3-over-short-bstr, witness proved; value layer decode=>encode=>decode fixed point for EVERY type incl. Header, ProtectedHeader, CoseSignature, the seven message structures and the KDF context types; protected slots verbatim at every nesting level; byte-level fixed point for every type under a wire-normality hypothesis on the re-encoded value) + decode/encode/decode/encode run on every accepted generated input of every type",
-      "Theorems: from_reader output satisfies value_nf0 and depth <= 256; for values without the bad-bignum shape, from_reader (ser v) = v; T_decode_encode_fixed_point for all 16 types (if from_value v = Ok m then to_value m = Ok v' and from_value v' = Ok m); messages_bytes_fixed_point (from_slice b = Ok m, to_value m = Ok v', v' wire-normal and depth <= 256 => to_vec m = Ok b', from_slice b' = Ok m); F4 witness. Remaining gap: wire-normality of the RE-ENCODED value is a hypothesis of the byte-level theorems for header-carrying types rather than derived from the parser-output theorem; the correspondence run decides it: for every accepted input (structured, mutated, non-canonical), the implementation's decode(encode(decode b)) = decode b and second encoding = first, and its bytes equal the model's.",
-      COMMON_NOTE, "DESIGN.md 7 (C07), 8 (F4), 13.3")
+claim("C07", "Coq proof with one known class: for every type and every input shorter than 2^64 bytes whose parse contains no tag 2/3 directly over a short non-normal byte string, if the input decodes to m then m encodes to b' and b' decodes to m (byte level, all 18 decoder/encoder pairs); built from: parser output is in normal form; re-serialise/re-parse is the identity on normal values; value-level decode=>encode=>decode fixed point for every type with protected bytes verbatim at every nesting level; re-encoding a decoded value stays wire-normal and no deeper. Witness of the known class proved. + decode/encode/decode/encode run on every accepted generated input of every type",
+      "Theorems: C07_all_types_bytes_fixed_point_full (the property's statement for Label, PartyInfo, CoseKey, CoseKeySet, ClaimsSet, Header, ProtectedHeader (both entry points), CoseSignature, the seven message structures, SuppPubInfo, CoseKdfContext), its from_slice form, non-vacuity example; supporting: from_reader output satisfies value_nf0 and depth <= 256; from_reader (ser v) = v for normal v; T_decode_encode_fixed_point; T_reencode_nf (value_nf v' and depth v' <= depth v); F4 witness (C07_short_bignum_refuted) for the excluded class. Implementation side: for every accepted input (structured, mutated, non-canonical), decode(encode(decode b)) = decode b and second encoding = first, and its bytes equal the model's.",
+      COMMON_NOTE, "DESIGN.md 7 (C07), 8 (F4), 13.2")
 claim("C11", "Coq proof (encode/decode round trip 'wf x -> to_value x = Ok v /\\ from_value v = Ok (assign x)' for every type incl. Header, the message structures and the KDF context types, and through bytes for wire-normal values; protected-slot shape, is_empty <-> all fields empty, distinct keys and totality of all encoders) + three-way run: implementation vs model vs independent Python encoder, decode-back on the implementation, definite-length check by an independent parser",
       "Theorems: every well-formed value (bwf predicates; shown non-vacuous: every decoded value satisfies them) encodes to a value that decodes back to it with protected bytes assigned, for all 16 types, also through bytes for wire-normal values; the protected slot is the stored bytes / h'' / bstr(encoded map); Header::is_empty holds iff all eight fields are empty; header and key maps have distinct keys; no encoder panics. 'Exactly the populated fields under their registered labels' is carried by the accept-iff specifications (C08-C10, C18) through which the round trips are proved, and independently by comparing the implementation's output byte-for-byte with an independent Python encoder of the CDDL shape (every field singly and in combination, single-field protected headers in all eight message types) and decoding it back.",
       COMMON_NOTE, "DESIGN.md 7 (C11), 13.3")
